@@ -71,17 +71,20 @@ theorem C01_complete (hir : HirSpec) (cfg : Cfg) (files : List Text) (h : emitFi
           refine ⟨by simp, by simp, by simp, ?_, ?_, ?_⟩
           · intro kv hkv
             obtain ⟨b, hb, hmem⟩ := mapE_ok_mem _ _ _ hm kv hkv
+            unfold modelPath at hb
             cases hf : makeModelFile hir.schemas cfg kv.1 kv.2 with
             | error e => rw [hf] at hb; simp at hb
             | ok f => rw [hf] at hb; simp at hb; subst hb; exact ⟨f, rfl, by simp [hmem]⟩
           · intro op hop
             obtain ⟨b, hb, hmem⟩ := mapE_ok_mem _ _ _ hrq op hop
+            unfold requestPath at hb
             cases hf : makeRequestFile (!hir.security.isEmpty) cfg op with
             | error e => rw [hf] at hb; simp at hb
             | ok f => rw [hf] at hb; simp at hb; subst hb; exact ⟨f, rfl, by simp [hmem]⟩
           · intro hexs op hop
             simp only [hexs, if_true] at hex
             obtain ⟨b, hb, hmem⟩ := mapE_ok_mem _ _ _ hex op hop
+            unfold examplePath at hb
             cases hf : makeExample hir.schemas cfg op with
             | error e => rw [hf] at hb; simp at hb
             | ok f => rw [hf] at hb; simp at hb; subst hb; exact ⟨f, rfl, by simp [hmem]⟩
